@@ -56,7 +56,7 @@ func IsError(t types.Type) bool {
 
 // Zero returns the zero value as a string, for a given type.
 func Zero(typ types.Type) string {
-	switch t := typ.(type) {
+	switch t := typ.Underlying().(type) {
 	case *types.Basic:
 		switch t.Kind() {
 		case types.String:
